@@ -2,11 +2,11 @@
     Statements only. [RT.Files] models text files as line lists, RANDOM files as record maps and the
     table of open handles; operation sequences run on the implementation (programs in a scratch
     directory) are compared with [Files.frun] in Coq. The operating system's files are assumed to
-    behave like the model's maps; console INPUT / LINE INPUT splitting and INPUT # field splitting
-    are NOT modelled here (console LINE INPUT was repaired in commit 0cf70c5 and is covered by C16/C17
-    style cases of the earlier round). *)
+    behave like the model's maps. The byte-level reader behind LINE INPUT and INPUT - one reader for a
+    file and for the console - is [RT.ReadInput]; read sequences over byte streams (given to the
+    implementation as a file and as the console's input) are compared with [ReadInput.rrun]. *)
 From Coq Require Import List Arith Bool.
-From RB Require Import RT.Files RT.FilesProofs.
+From RB Require Import RT.Files RT.FilesProofs RT.ReadInput RT.ReadInputProofs.
 Import ListNotations.
 
 Theorem C18_write_then_read_back : forall s name h lines,
@@ -51,6 +51,43 @@ Proof. exact close_frees_the_handle. Qed.
 Theorem C18_close_all_frees_every_handle : forall s h, lookup (handles (fst (fstep s FCloseAll))) h = None.
 Proof. exact close_all_frees_every_handle. Qed.
 
+(** bytes: the lines written (each followed by CR LF) are the lines read, then the end is reached *)
+Theorem C18_lines_written_are_lines_read : forall lines fuel, Forall nocrlf lines -> length lines <= fuel ->
+  read_lines fuel (write_lines lines) = lines.
+Proof. exact read_lines_write_lines. Qed.
+
+Theorem C18_line_ends : forall l rest, nocrlf l ->
+  line_input (l ++ 13 :: 10 :: rest) = Some (l, rest) /\ line_input (l ++ 10 :: rest) = Some (l, rest) /\
+  (forall c, c <> 10 -> line_input (l ++ 13 :: c :: rest) = Some (l, c :: rest)) /\
+  (l <> [] -> line_input l = Some (l, [])).
+Proof.
+  intros l rest H. split; [exact (line_input_crlf l rest H)|]. split; [exact (line_input_lf l rest H)|].
+  split; [exact (fun c Hc => line_input_cr l c rest H Hc)|exact (line_input_unterminated l H)].
+Qed.
+
+(** a field is the text up to the next comma or line end, without the blanks around it; the separator
+    is consumed and nothing else *)
+Theorem C18_field_is_trimmed_text_up_to_separator : forall f c rest, nosep f -> is_sep c = true ->
+  input (f ++ c :: rest) = Some (trim f, if c =? 13 then eat_lf rest else rest).
+Proof. exact input_field. Qed.
+
+Theorem C18_fields_written_are_fields_read : forall fs rest, Forall nosep fs -> Forall plain fs -> fs <> [] ->
+  read_fields (length fs) (join_fields fs ++ 13 :: 10 :: rest) = (fs, rest).
+Proof. exact fields_read_back. Qed.
+
+Theorem C18_reading_at_the_end_is_error_62 : forall ops,
+  rrun [] (OInput :: ops) = [RErr 62] /\ rrun [] (OLine :: ops) = [RErr 62] /\
+  rrun [] (OEof :: ops) = RBool true :: rrun [] ops.
+Proof. intros ops. repeat split. Qed.
+
+Theorem C18_reads_never_look_behind : forall p bs a rest, read_until p bs = (a, rest) -> exists pre, bs = pre ++ rest.
+Proof. exact read_until_suffix. Qed.
+
+Example C18_example_bytes :
+  rrun [32; 97; 32; 44; 98; 13; 10; 99; 44; 100; 13; 120] [OInput; OEof; OInput; OLine; OEof; OLine; OEof; OLine]
+  = [RLine [97]; RBool false; RLine [98]; RLine [99; 44; 100]; RBool false; RLine [120]; RBool true; RErr 62].
+Proof. vm_compute. reflexivity. Qed.
+
 Example C18_example :
   snd (frun fs0 [FOpen 1 1 MOutput; FPrint 1 [104; 105]; FClose 1; FOpen 1 2 MInput; FEof 2; FLineInput 2; FEof 2; FOpen 2 2 MInput])
   = [ROk; ROk; ROk; ROk; RBool false; RLine [104; 105]; RBool true; RErr 55].
@@ -65,3 +102,9 @@ Print Assumptions C18_closed_handle_is_an_error.
 Print Assumptions C18_wrong_mode_is_an_error.
 Print Assumptions C18_close_frees_the_handle.
 Print Assumptions C18_close_all_frees_every_handle.
+Print Assumptions C18_lines_written_are_lines_read.
+Print Assumptions C18_line_ends.
+Print Assumptions C18_field_is_trimmed_text_up_to_separator.
+Print Assumptions C18_fields_written_are_fields_read.
+Print Assumptions C18_reading_at_the_end_is_error_62.
+Print Assumptions C18_reads_never_look_behind.
